@@ -86,6 +86,12 @@ def enc(v):
   return {'other': type(v).__name__}
 
 
+def same(a, b):
+  """Equality of two encodings as JSON text: Python's `==` would conflate True / 1 (and False / 0), which
+  are exactly the equal-but-distinguishable values the property has to keep apart."""
+  return json.dumps(a, sort_keys=True) == json.dumps(b, sort_keys=True)
+
+
 def has_missing(j):
   if isinstance(j, list):
     return any(has_missing(x) for x in j)
@@ -401,27 +407,27 @@ def battery(pg, kind, x, p):
 
   chk('len', lambda: len(x) == len(p))
   chk('eq', lambda: (x == p) and (p == x) and not (x != p))
-  chk('to_json', lambda: pg.to_json(x) == pg.to_json(p))
+  chk('to_json', lambda: same(enc(pg.to_json(x)), enc(pg.to_json(p))))
   chk('symbolic-children', lambda: all_symbolic(pg, x))
   if kind == 'list':
     n = len(p)
-    chk('iter', lambda: enc(list(iter(x))) == enc(p))
-    chk('getitem', lambda: all(enc(x[i]) == enc(p[i]) for i in range(-n, n)))
+    chk('iter', lambda: same(enc(list(iter(x))), enc(p)))
+    chk('getitem', lambda: all(same(enc(x[i]), enc(p[i])) for i in range(-n, n)))
     chk('in', lambda: all((v in x) for v in p) and ('<absent>' not in x))
     for s in (slice(None, None, -1), slice(1, None), slice(None, -1), slice(None, None, 2), slice(-2, None, -2),
               slice(n, 0, -1), slice(1, n + 3, 3)):
       chk('slice[%s:%s:%s]' % ('' if s.start is None else ('n' if s.start == n and n > 2 else s.start),
                                '' if s.stop is None else ('n+3' if s.stop == n + 3 else s.stop),
                                '' if s.step is None else s.step),
-          lambda s=s: enc(x[s]) == enc(p[s]))
-    chk('reversed', lambda: enc(list(reversed(x))) == enc(list(reversed(p))))
+          lambda s=s: same(enc(x[s]), enc(p[s])))
+    chk('reversed', lambda: same(enc(list(reversed(x))), enc(list(reversed(p)))))
   else:
-    chk('iter', lambda: list(iter(x)) == list(iter(p)))
-    chk('keys', lambda: list(x.keys()) == list(p.keys()))
-    chk('values', lambda: enc(list(x.values())) == enc(list(p.values())))
-    chk('items', lambda: enc([list(kv) for kv in x.items()]) == enc([list(kv) for kv in p.items()]))
-    chk('getitem', lambda: all(enc(x[k]) == enc(p[k]) for k in p))
-    chk('get', lambda: all(enc(x.get(k)) == enc(p.get(k)) for k in list(p) + ['<absent>']))
+    chk('iter', lambda: same(list(iter(x)), list(iter(p))))
+    chk('keys', lambda: same(list(x.keys()), list(p.keys())))
+    chk('values', lambda: same(enc(list(x.values())), enc(list(p.values()))))
+    chk('items', lambda: same(enc([list(kv) for kv in x.items()]), enc([list(kv) for kv in p.items()])))
+    chk('getitem', lambda: all(same(enc(x[k]), enc(p[k])) for k in p))
+    chk('get', lambda: all(same(enc(x.get(k)), enc(p.get(k))) for k in list(p) + ['<absent>']))
     chk('in', lambda: all(k in x for k in p) and ('<absent>' not in x))
   return bad
 
@@ -745,7 +751,7 @@ class C02(Prop):
       except Exception as e:   # pylint: disable=broad-except
         a = {'r': None, 'e': err_name(e)}
       a['s'] = enc(p)
-      if a['e'] is None and a['s'] != before:
+      if a['e'] is None and not same(a['s'], before):
         changed = True
       try:
         if op.get('nf'):
@@ -762,9 +768,9 @@ class C02(Prop):
       diff = None
       if a['e'] != b['e']:
         diff = 'error-class(%s->%s)' % (a['e'], b['e'])
-      elif a['s'] != b['s']:
+      elif not same(a['s'], b['s']):
         diff = 'missing-placeholder' if has_missing(b['s']) else 'contents'
-      elif a['r'] != b['r']:
+      elif not same(a['r'], b['r']):
         diff = 'result'
       else:
         bad = battery(pg, kind, x, p)
@@ -789,9 +795,9 @@ class C02(Prop):
     for side in ('spec', 'impl'):
       a = impl_out['model'][side]
       b = model_out.get(side, [])[:n]
-      if a != b:
+      if not same(a, b):
         for i, (u, v) in enumerate(zip(a, b)):
-          if u != v:
+          if not same(u, v):
             return '%s side, step %d %s: %s=%s lean=%s' % (
                 side, i, json.dumps(case['ops'][i]), 'builtin' if side == 'spec' else 'pg',
                 json.dumps(u), json.dumps(v))
